@@ -13,7 +13,11 @@ impl<'b> Response<'b> {
     pub fn parse(buf: &'b [u8]) -> Result<Response<'b>, HttpParsingError> {
         let start = buf.len();
         let (http_version, rest) = parse_version(buf)?;
-        let rest = rest.get(1..).ok_or(MalformedStatusLine)?; // skip single SP
+        let rest = match rest {
+            [b' ', rest @ ..] => rest,
+            [] => return Err(UnexpectedEof),
+            _ => return Err(MalformedStatusLine),
+        };
         let (status, rest) = parse_response_status(rest)?;
         let (headers, rest) = parse_headers(rest)?;
 
@@ -30,7 +34,7 @@ impl<'b> Response<'b> {
 fn parse_response_status(buf: &[u8]) -> Result<(Status<'_>, &[u8]), HttpParsingError> {
     let code = parse_response_status_code(buf)?;
     // check SP
-    if buf.get(3).ok_or(MalformedStatusLine)? != &b' ' {
+    if buf.get(3).ok_or(UnexpectedEof)? != &b' ' {
         return Err(MalformedStatusLine);
     }
 
@@ -52,20 +56,20 @@ fn parse_response_status(buf: &[u8]) -> Result<(Status<'_>, &[u8]), HttpParsingE
         }
         i += 1;
     }
-    Err(MalformedStatusLine)
+    Err(UnexpectedEof) // no CRLF yet
 }
 
 #[inline]
 fn parse_response_status_code(buf: &[u8]) -> Result<u16, HttpParsingError> {
-    let hundreds = match buf.first().ok_or(MalformedStatusLine)? {
+    let hundreds = match buf.first().ok_or(UnexpectedEof)? {
         x if (*x >= b'0' && *x <= b'9') => *x,
         _ => return Err(MalformedStatusLine),
     };
-    let tens = match buf.get(1).ok_or(MalformedStatusLine)? {
+    let tens = match buf.get(1).ok_or(UnexpectedEof)? {
         x if (*x >= b'0' && *x <= b'9') => *x,
         _ => return Err(MalformedStatusLine),
     };
-    let ones = match buf.get(2).ok_or(MalformedStatusLine)? {
+    let ones = match buf.get(2).ok_or(UnexpectedEof)? {
         x if (*x >= b'0' && *x <= b'9') => *x,
         _ => return Err(MalformedStatusLine),
     };
